@@ -194,6 +194,31 @@ def _encode_special(item):
     return back
 
 
+def rfc3339_instant(text):
+    """RFC 3339 text -> microseconds since the epoch (own arithmetic), or None"""
+    import re
+    m = re.fullmatch(r"(\d{4})-(\d\d)-(\d\d)[Tt](\d\d):(\d\d):(\d\d)(?:\.(\d{1,9}))?([Zz]|[+-]\d\d:\d\d)", text)
+    if not m:
+        return None
+    y, mo, d, hh, mm, ss = (int(m.group(i)) for i in range(1, 7))
+    us = int((m.group(7) or "0").ljust(6, "0")[:6])
+    off = 0 if m.group(8) in "Zz" else (1 if m.group(8)[0] == "+" else -1) * (int(m.group(8)[1:3]) * 60 + int(m.group(8)[4:6]))
+    return ((celx.days_from_civil(y, mo, d) * 86400 + hh * 3600 + mm * 60 + ss - off * 60) * 10**6) + us
+
+
+def _encode_zoned(item):
+    """a timestamp VALUE that carries a zone other than UTC: the JSON text must still denote the same instant"""
+    us, off = item
+    import datetime
+    tz = datetime.timezone(datetime.timedelta(minutes=off))
+    v = celx.ct.TimestampType((celx.EPOCH + datetime.timedelta(microseconds=us)).astimezone(tz))
+    try:
+        text = json.loads(json.dumps(v, cls=CELJSONEncoder))
+    except Exception as ex:  # noqa: BLE001
+        return "exc:" + type(ex).__name__, None
+    return text, rfc3339_instant(text) if isinstance(text, str) else None
+
+
 def rand_doc(rng, depth):
     k = rng.random()
     if depth == 0 or k < 0.45:
@@ -246,6 +271,14 @@ def run(ctx: Ctx) -> int:
         if not same_doc(back, back_exp):
             kind = celw["t"] if celw["t"] not in ("list", "map") else celw["t"] + " of " + (celw["v"][0]["t"] if celw["t"] == "list" else celw["v"][0][1]["t"])
             ctx.disagree("encode %s: text differs" % kind, {"cel": celw, "expected": back_exp, "observed": back})
+    zoned = [(celx.dec(c)["v"], off) for c, _ in specials if c["t"] == "timestamp" for off in (-210, 345, -30, 60)
+             if -62135596800 * 10**6 + 86400 * 10**6 < celx.dec(c)["v"] < 253402300799 * 10**6 - 86400 * 10**6]
+    for (us, off), (text, inst) in zip(zoned, [_encode_zoned(z) for z in zoned]):
+        nobs += 1
+        if inst != us:
+            ctx.disagree("encode timestamp in zone %+d min: %s" % (off, "another instant" if inst is not None else "not RFC 3339 text"),
+                         {"instant_us": us, "zone_minutes": off, "emitted": text, "emitted_instant_us": inst})
+    ctx.cov["zoned_timestamp_encodings"] = len(zoned)
     ctx.cov["traces_validated_against_impl"] += len(items) + len(specials)
     ctx.cov["evaluations"] += nobs
     ctx.cov["replayed_documents"] = len(items)
